@@ -404,7 +404,9 @@ func TestC08(t *testing.T) {
 		A, B, C := w.accs[0], w.accs[1], w.accs[2]
 		var fl *rnsFailure
 		steps := []func() *rnsFailure{
-			func() *rnsFailure { return w.do("register", A, "abcde.jkl", rnstypes.NewMsgRegisterName(A.Bech, "abcde.jkl", 1, "{}", false), nil, c08Oracle) },
+			func() *rnsFailure {
+				return w.do("register", A, "abcde.jkl", rnstypes.NewMsgRegisterName(A.Bech, "abcde.jkl", 1, "{}", false), nil, c08Oracle)
+			},
 			func() *rnsFailure {
 				p := sdk.NewInt64Coin("ujkl", 777)
 				return w.do("list", A, "abcde.jkl", rnstypes.NewMsgList(A.Bech, "abcde.jkl", p), func(st *rnsStep) { st.Coin = p }, c08Oracle)
@@ -412,7 +414,9 @@ func TestC08(t *testing.T) {
 			func() *rnsFailure {
 				return w.do("transfer", A, "abcde.jkl", rnstypes.NewMsgTransfer(A.Bech, "abcde.jkl", B.Bech), func(st *rnsStep) { st.Receiver = B.Bech }, c08Oracle)
 			},
-			func() *rnsFailure { return w.do("buy", C, "abcde.jkl", rnstypes.NewMsgBuy(C.Bech, "abcde.jkl"), nil, c08Oracle) },
+			func() *rnsFailure {
+				return w.do("buy", C, "abcde.jkl", rnstypes.NewMsgBuy(C.Bech, "abcde.jkl"), nil, c08Oracle)
+			},
 		}
 		for _, s := range steps {
 			if fl = s(); fl != nil {
